@@ -590,6 +590,24 @@ def c16_cases(seed=0):
     ps = dict(ops=ops, pops={"a": dict(ops=["op"], n=3, params={"op/tau": het(3, 1.0, 3.0), "op/r": het(3, -0.5, 0.5)})},
               conns=[dict(src="a/op/r", tgt="a/op/r_in", W=W(3, 3, 0.2), edge=dict(two_eq, map={"x_pre": "source"}))])
     out.append(("P7b-coupling-edge-two-equations", dict(coupling=True), ps))
+    # coupling edge between two populations whose post-synaptic variable has the SAME name as the source variable
+    ps = dict(ops=ops, pops={"a": dict(ops=["op"], n=3, params={"op/r": het(3, -0.5, 0.5)}),
+                             "c": dict(ops=["op"], n=3, params={"op/r": het(3, -0.5, 0.5), "op/tau": 3.0})},
+              conns=[dict(src="a/op/r", tgt="c/op/r_in", W=W(3, 3, 0.2), edge=dict(sin_e, map={"x_pre": "source", "x_post": "c/op/r"}))])
+    out.append(("P7c-coupling-edge-post-variable-named-like-source", dict(coupling=True), ps))
+    # coupling edge operator with a constant
+    gain_e = dict(name="cg", eqs=[["s", "alg", ["*", V("gain"), ["call", "tanh", V("x_pre")]]]],
+                  vars={"s": ["output", 0.0], "x_pre": ["input", 0.0], "gain": ["const", 1.7]})
+    ps = dict(ops=ops, pops={"a": dict(ops=["op"], n=3, params={"op/tau": het(3, 1.0, 3.0), "op/r": het(3, -0.5, 0.5)})},
+              conns=[dict(src="a/op/r", tgt="a/op/r_in", W=W(3, 3, 0.2), edge=dict(gain_e, map={"x_pre": "source"}))])
+    out.append(("P7d-coupling-edge-with-constant", dict(coupling=True), ps))
+    # listed findings (loud): a coupling edge from a single-unit source; two Connectivity objects with the same source and target
+    ps = dict(ops=ops, pops={"h": dict(ops=["op"], n=1, params={"op/r": 0.5}), "b": dict(ops=["tg"], n=3, params={"tg/v": het(3, -0.5, 0.5)})},
+              conns=[dict(src="h/op/r", tgt="b/tg/u", W=[[1.0], [-0.5], [0.25]], edge=dict(tanh_e, map={"x_pre": "source"}))])
+    out.append(("P12-coupling-edge-from-single-unit-source", dict(coupling=True, single_source_coupling=True), ps))
+    ps = dict(ops=ops, pops={"a": dict(ops=["op"], n=3, params={"op/r": het(3, -0.5, 0.5)}), "b": dict(ops=["tg"], n=2, params={"tg/v": het(2, -0.5, 0.5)})},
+              conns=[dict(src="a/op/r", tgt="b/tg/u", W=W(2, 3, 0.0)), dict(src="a/op/r", tgt="b/tg/u", W=W(2, 3, 0.0))])
+    out.append(("P13-two-connectivities-same-source-same-target", dict(two_conns_same_pair=True), ps))
     # a coupling edge template WITH a gamma-kernel delay: the coupling function reads the delayed source
     ps = dict(ops=ops, pops={"a": dict(ops=["op"], n=3, params={"op/tau": het(3, 1.0, 3.0), "op/r": het(3, -0.5, 0.5)})},
               conns=[dict(src="a/op/r", tgt="a/op/r_in", W=W(3, 3, 0.2), d=0.1, s=0.05, edge=dict(tanh_e, map={"x_pre": "source"}))])
